@@ -218,7 +218,8 @@ example : specOK (view33 s0) (.peers 1) [Tok.metaUpd 3 g2] = false := by decide
 `mark_all_retrieved` needs no assumption: it is a ghost-history invariant of the worker model
 (`Proofs/DaserSampled.lean`), the temporal reading of what the monitor checks step by step (`accepted_mark`,
 `accepted_result`, `accepted_choice`).  `sampled_shares_checked` combines it with C10's `mh_sample_sound` under ONE
-explicit assumption about third-party code, `BeetswapContract`. -/
+explicit assumption about third-party code, `BeetswapContract`, and collision-freeness of the hash relative to the inputs
+actually hashed (`HashOKOn H S`). -/
 
 open Lumina.Proofs.DaserSampled in
 /-- **every history, whole-history form.**  Whenever the worker calls `mark_as_sampled(h)` — in reaction to stimulus `ev`
@@ -254,25 +255,33 @@ open Lumina.Model.ShwapHasher Lumina.Proofs.SampledShares in
     (`ShwapMultihasher`, the subject of C10) yielded exactly the multihash of the REQUESTED CID
     (`sample_cid(row, col, height)`), run against a header store each of whose headers commits to the square `sq` of
     its height.  (beetswap hashes every received block with the multihasher registered for the block's multihash
-    code, rebuilds the CID from the result and resolves a query only if that CID is on its wantlist.) -/
-def BeetswapContract (H : Lumina.Model.Nmt.HashFn) (P : Params) (sq : Nat → Lumina.Model.Eds.Eds) (kk : Nat → Nat)
-    (answered : List (Nat × Share)) : Prop :=
-  ∀ hp ∈ answered, ∃ store blk, StoreCommits H sq kk store ∧
-    multihash H P store Lumina.Gen.C15.SAMPLE_ID_MULTIHASH_CODE blk = .ok (mhBytes (sampleCid hp.1 hp.2))
+    code, rebuilds the CID from the result and resolves a query only if that CID is on its wantlist.)
+    `S` is the set of byte strings the hash is assumed collision-free on (audit repair X1): the contract also says that
+    what was hashed for those stores' squares (`StoreCommits`) and by the verification of the delivered block
+    (`sampleBlockInputs`) lies in `S` — i.e. `S` ⊇ the union, over the successful answers of the history, of the inputs
+    actually hashed. -/
+def BeetswapContract (H : Lumina.Model.Nmt.HashFn) (S : Lumina.Util.Bytes → Prop) (P : Params)
+    (sq : Nat → Lumina.Model.Eds.Eds) (kk : Nat → Nat) (answered : List (Nat × Share)) : Prop :=
+  ∀ hp ∈ answered, ∃ store blk, StoreCommits H S sq kk store ∧
+    multihash H P store Lumina.Gen.C15.SAMPLE_ID_MULTIHASH_CODE blk = .ok (mhBytes (sampleCid hp.1 hp.2)) ∧
+    ∀ y ∈ sampleBlockInputs H P blk, S y
 
 open Lumina.Model.ShwapHasher Lumina.Proofs.SampledShares Lumina.Proofs.DaserSampled in
-/-- **A block marked sampled really had its shares checked** (C33 × C10), modest form.  Under the idealised hash and
-    the beetswap contract for the successful answers of the history; heights are `u64` and square widths `u16` values
-    (the Rust types): whenever the worker marks height `h` as sampled there are `min (w², 16)` pairwise distinct
-    in-square coordinates of `h`'s square for each of which a block was delivered whose decoded sample carries exactly
-    the COMMITTED share at that coordinate (the share of the square that the stored header's DAH commits to).
-    What is NOT claimed: anything about beetswap itself, or that the store consulted by the multihasher and the
+/-- **A block marked sampled really had its shares checked** (C33 × C10), modest form.  Hypotheses: the hash has
+    32-byte output and NO COLLISION AMONG the byte strings of `S` (`HashOKOn H S` — satisfiable, see the instance below;
+    the former `HashOK H`, injectivity on all byte strings, was contradictory); the beetswap contract for the
+    successful answers of the history, which ties `S` to what was actually hashed; heights are `u64` and square widths
+    `u16` values (the Rust types).  Then whenever the worker marks height `h` as sampled there are `min (w², 16)`
+    pairwise distinct in-square coordinates of `h`'s square for each of which a block was delivered whose decoded sample
+    carries exactly the COMMITTED share at that coordinate (the share of the square that the stored header's DAH commits
+    to).  What is NOT claimed: anything about beetswap itself, or that the store consulted by the multihasher and the
     header chain `hdr` the worker reads describe the same headers (both are parameters). -/
-theorem sampled_shares_checked {H : Lumina.Model.Nmt.HashFn} (hk : Lumina.Proofs.Nmt.HashOK H) (P : Params)
+theorem sampled_shares_checked {H : Lumina.Model.Nmt.HashFn} {S : Lumina.Util.Bytes → Prop}
+    (hk : Lumina.Proofs.Nmt.HashOKOn H S) (P : Params)
     (sq : Nat → Lumina.Model.Eds.Eds) (kk : Nat → Nat) (limit extra : Nat) (hdr : Nat → Hdr)
     (hwid : ∀ x, (hdr x).width ≤ 65536)
     (pre : List (Ev × List (List (Nat × Nat)))) (ev : Ev) (rnd : List (List (Nat × Nat))) (h : Nat) (hh : h < 2 ^ 64)
-    (hbs : BeetswapContract H P sq kk (hits (init { limit := limit, extra := extra, maxSamples := Lumina.Gen.C33.MAX_SAMPLES_NEEDED, prunerThreshold := Lumina.Gen.C33.PRUNER_THRESHOLD } hdr)
+    (hbs : BeetswapContract H S P sq kk (hits (init { limit := limit, extra := extra, maxSamples := Lumina.Gen.C33.MAX_SAMPLES_NEEDED, prunerThreshold := Lumina.Gen.C33.PRUNER_THRESHOLD } hdr)
         (pre ++ [(ev, rnd)])))
     (hm : Tok.mark h ∈ (step (run (init { limit := limit, extra := extra, maxSamples := Lumina.Gen.C33.MAX_SAMPLES_NEEDED, prunerThreshold := Lumina.Gen.C33.PRUNER_THRESHOLD } hdr) pre).1
         ev rnd).2) :
@@ -281,41 +290,107 @@ theorem sampled_shares_checked {H : Lumina.Model.Nmt.HashFn} (hk : Lumina.Proofs
       ∀ p ∈ shares, ∃ blk, CarriesCommittedShare P sq h p blk := by
   obtain ⟨shares, k1, k2, k3, k4⟩ := mark_all_retrieved limit extra hdr pre ev rnd h hm
   refine ⟨shares, k1, k2, k3, fun p hp => ?_⟩
-  obtain ⟨store, blk, hst, hok⟩ := hbs (h, p) (k4 p hp)
+  obtain ⟨store, blk, hst, hok, hV⟩ := hbs (h, p) (k4 p hp)
   have hw := hwid h
   have hp12 := k2 p hp
-  exact ⟨blk, accepted_block_is_committed_share hk P hst hh (by omega) (by omega) hok⟩
+  exact ⟨blk, accepted_block_is_committed_share hk P hst hh (by omega) (by omega) hok hV⟩
 
-/-! non-vacuity of the two additional theorems: in the concrete history `h1` block 2 IS marked (so the premise `hm` is
-    met), with the four hits of its 2 × 2 square; and the beetswap contract is satisfiable (toy hash and the concrete
-    accepted sample block of `Props/C10`; `HashOK` itself is the idealisation, met by no computable hash) -/
+/-! ### non-vacuity of the two additional theorems
+
+In the concrete history `h1` block 2 IS marked (premise `hm`), with the four hits of its 2 × 2 square.  For
+`sampled_shares_checked` a complete concrete instance: the toy hash `toySum` (group D; it has collisions, but none among the
+inputs below — `decide`), the 2 × 2 square `okEds` committed at height 2, four honest SAMPLE blocks (one per cell, built by
+`Sample::new`), toy protobuf parameters.  Every hypothesis holds — relative collision-freeness on the 21 hashed inputs, the
+beetswap contract for the four hits — and the theorem, applied, yields four distinct coordinates with their committed
+shares. -/
 
 set_option maxRecDepth 100000 in
-example : Tok.mark 2 ∈ (step (run s0 (h1.take 5)).1 (.answer 2 (1,0) false) [[]]).2 ∧
-    Lumina.Proofs.DaserSampled.hits s0 (h1.take 6) = [(2,(0,0)), (2,(1,1)), (2,(0,1)), (2,(1,0))] := by decide
+theorem nonvacuity_marked : Tok.mark 2 ∈ (step (run s0 (h1.take 5)).1 (.answer 2 (1,0) false) [[]]).2 ∧
+    Lumina.Proofs.DaserSampled.hits s0 (h1.take 5 ++ [(.answer 2 (1,0) false, [[]])]) =
+      [(2,(0,0)), (2,(1,1)), (2,(0,1)), (2,(1,0))] := by decide
+
+open Lumina.Model.Decoders Lumina.Model.ShwapId in
+/-- the honest SAMPLE block for cell `(k / 2, k % 2)` of `okEds` at height 2, as `shwap.Sample` -/
+def cellRaw (k : Nat) : RawSample :=
+  match Lumina.Model.Sample.new Lumina.Proofs.Sample.toySum Lumina.Props.C04.okEds (k / 2) (k % 2) .row with
+  | .ok s => ⟨some s.share.data,
+      some ⟨s.proof.start, s.proof.end_, s.proof.siblings.map Lumina.Model.Nmt.NsHash.toBytes, [], s.proof.ignoreMaxNs⟩, 0⟩
+  | .error _ => ⟨none, none, 0⟩
+
+open Lumina.Model.ShwapHasher Lumina.Model.ShwapId in
+/-- block `[k]` carries the sample of cell `k` -/
+def cellP : Params where
+  decodeBlock := fun b => match b with
+    | [k] => some ((SampleId.mk ⟨⟨2⟩, k.toNat / 2⟩ (k.toNat % 2)).toCid.toBytes, [k])
+    | _ => none
+  decodeSample := fun c => match c with
+    | [k] => some (cellRaw k.toNat)
+    | _ => none
+  decodeRow := fun _ => none
+  decodeRnd := fun _ => none
+  codec := ⟨fun s _ => s, fun s _ => s⟩
+
+def cellStore : Nat → Option Lumina.Model.Eds.Dah := fun h => if h = 2 then some Lumina.Props.C10.okSumDah else none
+
+/-- everything hashed for the committed square and by the verification of the four blocks -/
+def cellHashed : List Lumina.Util.Bytes :=
+  Lumina.Proofs.Eds.edsInputs Lumina.Proofs.Sample.toySum Lumina.Props.C04.okEds ++
+    ([0, 1, 2, 3] : List UInt8).flatMap (fun k =>
+      Lumina.Proofs.SampledShares.sampleBlockInputs Lumina.Proofs.Sample.toySum cellP [k])
 
 set_option maxRecDepth 100000 in
-open Lumina.Props.C10 Lumina.Props.C04 in
-example : BeetswapContract toyH32 okP (fun _ => okEds) (fun _ => 1) [(1, (0, 0))] := by
-  intro hp hmem
-  simp only [List.mem_singleton] at hmem
-  subst hmem
-  refine ⟨okStore, [2], ?_, ?_⟩
-  · intro h d hs
-    have hd : d = okDah := by
-      by_cases h1 : h = 1
-      · simp [okStore, h1] at hs; exact hs.symm
-      · simp [okStore, h1] at hs
+theorem nonvacuity_cellHashed :
+    Lumina.Proofs.Nmt.NoCollOn Lumina.Proofs.Sample.toySum (fun y => y ∈ cellHashed) ∧ cellHashed.length = 21 :=
+  ⟨Lumina.Proofs.Sample.noCollOn_of_list (by decide +kernel), by decide +kernel⟩
+
+set_option maxRecDepth 100000 in
+open Lumina.Model.ShwapHasher Lumina.Proofs.SampledShares Lumina.Props.C10 in
+theorem nonvacuity_cells_accepted : ∀ k ∈ ([0, 1, 2, 3] : List UInt8),
+    yields (multihash Lumina.Proofs.Sample.toySum cellP cellStore Lumina.Gen.C15.SAMPLE_ID_MULTIHASH_CODE [k])
+      (sampleCid 2 (k.toNat / 2, k.toNat % 2)) = true := by
+  decide +kernel
+
+open Lumina.Model.ShwapHasher Lumina.Proofs.SampledShares Lumina.Props.C10 Lumina.Proofs.Sample Lumina.Props.C04 in
+/-- the beetswap contract holds of the four hits of the concrete history -/
+theorem nonvacuity_contract :
+    BeetswapContract toySum (fun y => y ∈ cellHashed) cellP (fun _ => okEds) (fun _ => 1)
+      [(2,(0,0)), (2,(1,1)), (2,(0,1)), (2,(1,0))] := by
+  have hstore : StoreCommits toySum (fun y => y ∈ cellHashed) (fun _ => okEds) (fun _ => 1) cellStore := by
+    intro h d hs
+    have hd : d = okSumDah := by
+      by_cases h1 : h = 2
+      · simp [cellStore, h1] at hs; exact hs.symm
+      · simp [cellStore, h1] at hs
     subst hd
-    exact ⟨rfl, rfl, Lumina.Props.C06.nonvacuity_okEds_shape.size⟩
-  · have hy : yields (Lumina.Model.ShwapHasher.multihash toyH32 okP okStore Lumina.Gen.C15.SAMPLE_ID_MULTIHASH_CODE [2])
-        okSampleId.toCid = true := by decide +kernel
-    unfold yields at hy
-    split at hy
-    · rename_i hsh heq
-      rw [heq]
-      have : hsh = Lumina.Model.ShwapHasher.mhBytes okSampleId.toCid := by simpa using hy
-      rw [this]; rfl
-    · cases hy
+    exact ⟨rfl, rfl, Lumina.Props.C06.nonvacuity_okEds_shape.size, fun y hy => List.mem_append_left _ hy⟩
+  have cell : ∀ k ∈ ([0, 1, 2, 3] : List UInt8), ∃ store blk,
+      StoreCommits toySum (fun y => y ∈ cellHashed) (fun _ => okEds) (fun _ => 1) store ∧
+      multihash toySum cellP store Lumina.Gen.C15.SAMPLE_ID_MULTIHASH_CODE blk =
+        .ok (mhBytes (sampleCid 2 (k.toNat / 2, k.toNat % 2))) ∧
+      ∀ y ∈ sampleBlockInputs toySum cellP blk, y ∈ cellHashed := by
+    intro k hk
+    refine ⟨cellStore, [k], hstore, yields_ok (nonvacuity_cells_accepted k hk), fun y hy => ?_⟩
+    exact List.mem_append_right _ (List.mem_flatMap.mpr ⟨k, hk, hy⟩)
+  intro hp hmem
+  simp only [List.mem_cons, List.not_mem_nil, or_false] at hmem
+  rcases hmem with rfl | rfl | rfl | rfl
+  · exact cell 0 (by decide)
+  · exact cell 3 (by decide)
+  · exact cell 1 (by decide)
+  · exact cell 2 (by decide)
+
+open Lumina.Proofs.SampledShares Lumina.Proofs.Sample Lumina.Props.C04 in
+/-- **`sampled_shares_checked` applied**: block 2 of the concrete history is marked, and the theorem gives four distinct
+    cells of the committed square, each with a delivered block that carries the committed share -/
+example : ∃ shares : List Share, shares.Nodup ∧ shares.length = 4 ∧
+    ∀ p ∈ shares, ∃ blk, CarriesCommittedShare cellP (fun _ => okEds) 2 p blk := by
+  have hbs : BeetswapContract toySum (fun y => y ∈ cellHashed) cellP (fun _ => okEds) (fun _ => 1)
+      (Lumina.Proofs.DaserSampled.hits s0 (h1.take 5 ++ [(.answer 2 (1,0) false, [[]])])) := by
+    rw [nonvacuity_marked.2]; exact nonvacuity_contract
+  obtain ⟨shares, k1, _, k3, k4⟩ :=
+    sampled_shares_checked ⟨nonvacuity_cellHashed.1, toySum_len⟩ cellP (fun _ => okEds) (fun _ => 1) 2 0 hdr0
+      (fun x => by simp only [hdr0]; split <;> omega) (h1.take 5) (.answer 2 (1,0) false) [[]] 2 (by decide) hbs
+      nonvacuity_marked.1
+  exact ⟨shares, k1, by rw [k3]; decide, k4⟩
 
 end Lumina.Props.C33
